@@ -220,13 +220,17 @@ theorem savedGraph_nodeOk (dfl : DFlags) (lib : List Cls) (sg : SGraph) (order :
 /-- what `save` then `load(base)` make of an argument -/
 def placedArg (dfl : DFlags) (base : List Nat) (data : List (List Nat)) (pos : Nat) (a : Arg) : Arg :=
   match data.contains a.name, a.value with
-  | true, .path _ => { a with value := .path (inDir base (relName dfl pos a.name)) }
+  | true, .path _ => { a with value := .path (inDir base (paramName dfl pos a.name)) }
   | _, _ => a
 
-theorem relocate_rename (dfl : DFlags) (base : List Nat) (data : List (List Nat)) (pos : Nat) (a : Arg) :
+theorem relName_eq (dfl : DFlags) (h : dfl.nameByParam = true) (pos : Nat) (arg src : List Nat) :
+    relName dfl pos arg src = paramName dfl pos arg := by
+  simp only [relName, h, if_true]
+
+theorem relocate_rename (dfl : DFlags) (hN : dfl.nameByParam = true) (base : List Nat) (data : List (List Nat)) (pos : Nat) (a : Arg) :
     relocateArg base data (renameArg dfl data pos a) = placedArg dfl base data pos a := by
   obtain ⟨name, ig, gen, cst, req, dflt, value⟩ := a
-  cases hd : data.contains name <;> cases value <;> simp only [renameArg, relocateArg, placedArg, hd]
+  cases hd : data.contains name <;> cases value <;> simp only [renameArg, relocateArg, placedArg, hd, relName_eq dfl hN]
 
 theorem relocate_id (base : List Nat) (data : List (List Nat)) (a : Arg)
     (h : ∀ s, data.contains a.name = true → a.value ≠ .path s) : relocateArg base data a = a := by
@@ -246,7 +250,7 @@ theorem lookupObj_map (f : LObj → LObj) (n : Nat) : ∀ (L : Loaded),
 
 theorem mem_copiesOfArgs (dfl : DFlags) (fs : FS) (data : List (List Nat)) (pos : Nat) (x : List Nat × Nat) :
     ∀ (args : List Arg), x ∈ copiesOfArgs dfl fs data pos args ↔
-      ∃ a ∈ args, data.contains a.name = true ∧ ∃ s, a.value = .path s ∧ x = (relName dfl pos a.name, (fsGet fs s).getD 0)
+      ∃ a ∈ args, data.contains a.name = true ∧ ∃ s, a.value = .path s ∧ x = (relName dfl pos a.name s, (fsGet fs s).getD 0)
   | [] => by simp [copiesOfArgs]
   | a :: r => by
     have ih := mem_copiesOfArgs dfl fs data pos x r
@@ -283,9 +287,9 @@ theorem eq_of_name_nodup : ∀ (l : List Arg), (l.map (·.name)).Nodup → ∀ a
     · exact absurd hab (hnd.1 a ha')
     · exact eq_of_name_nodup r hnd.2 a ha' b hb' hab
 
-theorem relName_inj (dfl : DFlags) (h : dfl.perObject = true) {i j : Nat} {a b : List Nat}
-    (e : relName dfl i a = relName dfl j b) : i = j ∧ a = b := by
-  simp only [relName, h, if_true] at e
+theorem paramName_inj (dfl : DFlags) (h : dfl.perObject = true) {i j : Nat} {a b : List Nat}
+    (e : paramName dfl i a = paramName dfl j b) : i = j ∧ a = b := by
+  simp only [paramName, h, if_true] at e
   obtain ⟨h1, h2⟩ := split_at_slash _ _ _ _ (dec_no_slash i) (dec_no_slash j) e
   exact ⟨dec_inj h1, h2⟩
 
@@ -293,26 +297,27 @@ theorem relName_inj (dfl : DFlags) (h : dfl.perObject = true) {i j : Nat} {a b :
     same configuration -/
 theorem saved_distinct (dfl : DFlags) (hN1 : dfl.perObject = true) (order base : List Nat) {n n' : Nat} {a a' : List Nat}
     (hn : n ∈ order) (hn' : n' ∈ order)
-    (h : inDir base (relName dfl (posOf order n) a) = inDir base (relName dfl (posOf order n') a')) : n = n' ∧ a = a' := by
-  obtain ⟨h1, h2⟩ := relName_inj dfl hN1 (inDir_inj h)
+    (h : inDir base (paramName dfl (posOf order n) a) = inDir base (paramName dfl (posOf order n') a')) : n = n' ∧ a = a' := by
+  obtain ⟨h1, h2⟩ := paramName_inj dfl hN1 (inDir_inj h)
   exact ⟨posOf_inj order hn hn' h1, h2⟩
 
 /-- the file stored for a data value holds the content of the original -/
 theorem saved_content (dfl : DFlags) (lib : List Cls) (sg : SGraph) (fs : FS) (order base : List Nat)
-    (hN1 : dfl.perObject = true) (hnames : ∀ n ∈ order, ((sg.g.node n).args.map (·.name)).Nodup)
+    (hN1 : dfl.perObject = true) (hN : dfl.nameByParam = true) (hnames : ∀ n ∈ order, ((sg.g.node n).args.map (·.name)).Nodup)
     {n : Nat} {a : Arg} {s : List Nat} {c : Nat} (hn : n ∈ order) (ha : a ∈ (sg.g.node n).args)
     (hd : (dataNames lib sg n).contains a.name = true) (hs : a.value = .path s) (hc : fsGet fs s = some c) :
-    fsGet (dirOf (copies dfl lib sg fs order)) (relName dfl (posOf order n) a.name) = some c ∧
-    fsGet (fsAfter base fs (copies dfl lib sg fs order)) (inDir base (relName dfl (posOf order n) a.name)) = some c := by
-  have hmem : (relName dfl (posOf order n) a.name, c) ∈ copies dfl lib sg fs order := by
+    fsGet (dirOf (copies dfl lib sg fs order)) (paramName dfl (posOf order n) a.name) = some c ∧
+    fsGet (fsAfter base fs (copies dfl lib sg fs order)) (inDir base (paramName dfl (posOf order n) a.name)) = some c := by
+  have hmem : (paramName dfl (posOf order n) a.name, c) ∈ copies dfl lib sg fs order := by
     refine List.mem_flatMap.2 ⟨n, hn, (mem_copiesOfArgs _ _ _ _ _ _).2 ⟨a, ha, hd, s, hs, ?_⟩⟩
-    rw [hc]; rfl
-  have huniq : ∀ c', (relName dfl (posOf order n) a.name, c') ∈ copies dfl lib sg fs order → c' = c := by
+    rw [hc, relName_eq dfl hN]; rfl
+  have huniq : ∀ c', (paramName dfl (posOf order n) a.name, c') ∈ copies dfl lib sg fs order → c' = c := by
     intro c' h'
     obtain ⟨n', hn', hx⟩ := List.mem_flatMap.1 h'
     obtain ⟨a', ha', hd', s', hs', hx'⟩ := (mem_copiesOfArgs _ _ _ _ _ _).1 hx
+    rw [relName_eq dfl hN] at hx'
     obtain ⟨hk, hv⟩ := Prod.mk.inj hx'
-    obtain ⟨hp, hname⟩ := relName_inj dfl hN1 hk
+    obtain ⟨hp, hname⟩ := paramName_inj dfl hN1 hk
     have hnn : n = n' := posOf_inj order hn hn' hp
     subst hnn
     have haa : a = a' := eq_of_name_nodup _ (hnames n hn) a ha a' ha' hname
@@ -320,7 +325,7 @@ theorem saved_content (dfl : DFlags) (lib : List Cls) (sg : SGraph) (fs : FS) (o
     rw [hs] at hs'
     cases hs'
     rw [hv, hc]; rfl
-  have h1 : fsGet (dirOf (copies dfl lib sg fs order)) (relName dfl (posOf order n) a.name) = some c :=
+  have h1 : fsGet (dirOf (copies dfl lib sg fs order)) (paramName dfl (posOf order n) a.name) = some c :=
     fsGet_of_mem_unique _ _ _ (List.mem_reverse.2 hmem) (fun c' h' => huniq c' (List.mem_reverse.1 h'))
   refine ⟨h1, ?_⟩
   apply fsGet_append_of_mem
@@ -329,14 +334,14 @@ theorem saved_content (dfl : DFlags) (lib : List Cls) (sg : SGraph) (fs : FS) (o
   · intro c' h'
     obtain ⟨⟨k, c''⟩, hk, he⟩ := List.mem_map.1 h'
     obtain ⟨he1, he2⟩ := Prod.mk.inj he
-    have : k = relName dfl (posOf order n) a.name := inDir_inj he1
+    have : k = paramName dfl (posOf order n) a.name := inDir_inj he1
     subst this
     exact he2 ▸ huniq c'' (List.mem_reverse.1 hk)
 
 /-- `load(dir)` of what `save(v, dir)` wrote: the value, and at every needed configuration the original with its data
     paths placed in the directory -/
 theorem loadSaved_save (fl : Flags) (dfl : DFlags) (lib : List Cls) (sg : SGraph) (fs : FS) (v : Val) (base : List Nat)
-    (hN2 : dfl.loadForwards = true)
+    (hN2 : dfl.loadForwards = true) (hN : dfl.nameByParam = true)
     (hwf : WF sg.g) (hr : ∀ r ∈ cfgRefs v, r < sg.g.size)
     (hok : ∀ n, Needed sg.g (cfgRefs v) n → NodeOk lib sg n) :
     ∃ L, loadSaved fl dfl lib base (save fl dfl lib sg fs v) = .ok (L, v) ∧
@@ -372,7 +377,7 @@ theorem loadSaved_save (fl : Flags) (dfl : DFlags) (lib : List Cls) (sg : SGraph
     refine ⟨rfl, ?_⟩
     apply List.map_congr_left
     intro a _
-    exact relocate_rename dfl base (dataNames lib sg n) (posOf order n) a
+    exact relocate_rename dfl hN base (dataNames lib sg n) (posOf order n) a
 
 /-! ### tags -/
 
